@@ -558,12 +558,21 @@ impl DrawState {
                 term.write_line("")?;
             }
 
+            // The cursor may still be parked at the right edge of the row above (that is where
+            // the previous draw left it). A first line without any visible character would not
+            // move it onto its own row, so give such a line one column.
+            let pad = usize::from(idx == 0 && line.console_width() == 0 && term_width > 0);
+            if pad > 0 {
+                term.write_str(" ")?;
+            }
+
             term.write_str(line.as_ref())?;
 
             if idx + 1 == self.lines.len() {
                 // For the last line of the output, keep the cursor on the right terminal
                 // side so that next user writes/prints will happen on the next line
-                let last_line_filler = line_height.as_usize() * term_width - line.console_width();
+                let last_line_filler =
+                    line_height.as_usize() * term_width - line.console_width() - pad;
                 term.write_str(&" ".repeat(last_line_filler))?;
             }
         }
